@@ -555,7 +555,13 @@ class Exec:
         return [(s, v if isinstance(v, Abort) else list(v)) for s, v in self.ev_seq(node.elts, st)]
 
     def ev_Set(self, node, st):
-        raise Unsupported("set literal")
+        out = []
+        for s2, vals in self.ev_seq(list(node.elts), st):
+            if isinstance(vals, Abort):
+                out.append((s2, vals))
+            else:
+                out.append((s2, self.lib.call_builtin(self, s2, "set", [list(vals)], {}, node)))
+        return out
 
     def ev_Dict(self, node, st):
         out = []
@@ -1072,7 +1078,13 @@ class Exec:
         return self.comprehension(node, st, list)
 
     def ev_SetComp(self, node, st):
-        return self.comprehension(node, st, set)
+        out = []
+        for s2, v in self.comprehension(node, st, list):
+            if isinstance(v, list):
+                # a concrete set of known small integers (outside the set-level mode)
+                v = self.lib.call_builtin(self, s2, "set", [v], {}, node)
+            out.append((s2, v))
+        return out
 
     # ---- comprehensions / any / all over SYMBOLICALLY-SIZED collections: desugared to the equivalent loop ----------
     _desugar_id = [0]
